@@ -311,6 +311,8 @@ def run_history(rm, M0, ops, sparse, cls=None, sample=False, label="history"):
     case = {"n": n, "sparse": sparse, "ops": ops, "M0": M0 if n <= 6 else {"digest_only": True}, "M0_rule": label}
     REC.begin_case(case, cls=cls, sample=sample)
     cur = csr_array(M0) if sparse else M0.copy()
+    if not sparse and (n + len(ops)) % 2:
+        cur = np.asfortranarray(cur)      # dense matrices arrive in either memory layout (a transpose, pandas .values)
     if sparse == "noncanonical":
         cur = noncanonical_csr(M0)
     il = None
